@@ -84,10 +84,9 @@ Definition why_restricted (T : bytes) : res aout :=
 Definition restricted_ok : bool := forallb (fun p => check_restricted (fst p)) specs_restricted.
 
 (* ---- C09: every word of the specification with one mandatory element missing is rejected.
-   spec_deletions lists, per type, (what is missing, expression); the pair in deletion_open is not proved:
-   MT935 B.37H: rejected by the library (explicit check), but the analysis joins the counter of the 37H loop over the
-   two ways the text can continue and cannot tell *)
-Definition deletion_open : list (bytes * bytes) := [(bs "MT935", bs "B.37H")].
+   spec_deletions lists, per type, (what is missing, expression); deletion_open would list the pairs that are not
+   proved: none at present (MT935 B.37H needed the exit states of a loop to be kept apart, see Engine/Abs.v add_exit) *)
+Definition deletion_open : list (bytes * bytes) := [].
 Definition pair_mem (p : bytes * bytes) (l : list (bytes * bytes)) : bool :=
   existsb (fun q => bytes_eqb (fst p) (fst q) && bytes_eqb (snd p) (snd q)) l.
 Definition check_deletion (T : bytes) (D : re) : bool :=
